@@ -299,7 +299,7 @@ fn run_case(case: &Value, variation: u64, vbp: &Path, scratch: &Path) -> Vec<Pro
                     (_, None) => false,
                     ("launch.toml", Some(b)) => String::from_utf8_lossy(b).parse::<toml::Table>().ok().is_some_and(|t| {
                         let procs = t.get("processes").and_then(|p| p.as_array()).cloned().unwrap_or_default();
-                        if c("launch") == "empty" { procs.is_empty() && !String::from_utf8_lossy(b).contains("stale") } else { procs.len() == 3 && procs[0].get("type").and_then(|x| x.as_str()) == Some("web") }
+                        if c("launch") == "empty" { procs.is_empty() && !String::from_utf8_lossy(b).contains("stale") } else { procs.len() == 4 && procs[0].get("type").and_then(|x| x.as_str()) == Some("web") }
                     }),
                     ("store.toml", Some(b)) => String::from_utf8_lossy(b).parse::<toml::Table>().ok().is_some_and(|t| {
                         let md = t.get("metadata").and_then(|m| m.as_table()).cloned().unwrap_or_default();
